@@ -116,7 +116,7 @@ fn check_lattice(case: &Case) -> Verdict {
     Verdict::Pass
 }
 
-fn features_case(c: &mut Choices) -> Case {
+pub fn features_case(c: &mut Choices) -> Case {
     let tsx = c.chance(1, 3);
     let base = any_opts(c, true, tsx);
     let knobs = Knobs {
@@ -198,7 +198,7 @@ fn features_case(c: &mut Choices) -> Case {
     case
 }
 
-fn check_pair(case: &Case) -> Verdict {
+pub fn check_pair(case: &Case) -> Verdict {
     let Some(opt) = case.extra["option"].as_str() else {
         return Verdict::Discard("module-uses-every-feature".into());
     };
